@@ -128,10 +128,16 @@ def gen_data(rng, vs, n):
     return out
 
 
-def evaluate_and_explain(text, vs, data, n):
+def evaluate_and_explain(text, vs, data, n, pre=None):
     def go():
         spec = impl.make_spec("offd", text, vs, single=True)
         spec.parse()
+        if pre is not None:
+            # the object has been used before: another trace evaluated and explained
+            ds0 = {"time": list(range(len(next(iter(pre.values())))))}
+            ds0.update({v: list(pre[v]) for v in vs})
+            spec.evaluate(ds0)
+            spec.explain()
         ds = {"time": list(range(n))}
         ds.update({v: list(data[v]) for v in vs})
         out = spec.evaluate(ds)
@@ -189,11 +195,15 @@ def compare_gen(ctx, what, ex, mg, text, rep):
     ctx.count("translated-explainer agrees")
 
 
-def check_case(ctx, f, data, n, rng, mo=None, mg=None):
+def check_case(ctx, f, data, n, rng, mo=None, mg=None, pre="random"):
     vs = sorted(data)
     text = "out = " + F.to_text(f)
-    out = evaluate_and_explain(text, vs, data, n)
-    rep = {"spec": text, "formula": F.to_proto(f), "data": data, "n": n, "impl": out}
+    if pre == "random":
+        pre = gen_data(rng, vs, rng.randint(1, 8)) if rng.random() < 0.25 else None
+    if pre is not None:
+        ctx.count("reused-object")
+    out = evaluate_and_explain(text, vs, data, n, pre)
+    rep = {"pre": pre, "spec": text, "formula": F.to_proto(f), "data": data, "n": n, "impl": out}
     if out[0] != "ok":
         return Violation("evaluate()/explain() raised %r: %s" % (out[1:], text), rep, stream="expl")
     r0, ex = out[1]
@@ -416,7 +426,8 @@ def replay(ctx, obj):
     import random
     f = F.from_proto(obj["formula"])
     data = {k: [float(x) for x in v] for k, v in obj["data"].items()}
-    v = check_case(Ctx(ctx.id, ctx.tier, ctx.seed), f, data, obj["n"], random.Random(0))
+    pre = {k: [float(x) for x in v_] for k, v_ in obj["pre"].items()} if obj.get("pre") else None
+    v = check_case(Ctx(ctx.id, ctx.tier, ctx.seed), f, data, obj["n"], random.Random(0), pre=pre)
     if v is None and "reassigned" in obj:
         d2 = {k: [float(x) for x in vv] for k, vv in obj["reassigned"].items()}
         text = "out = " + F.to_text(f)
